@@ -1,7 +1,7 @@
 #!/bin/sh
 # usage: tools_sweep.sh "<seeds>" "<props>" [jobs]  -> one line per (prop, seed)
 SEEDS="$1"; PROPS="$2"; JOBS="${3:-8}"
-cd /verif
+cd "$(dirname "$0")"
 for sd in $SEEDS; do for p in $PROPS; do
   out=$(VERIF_SEED=$sd ./check $p --jobs $JOBS 2>&1); rc=$?
   echo "seed=$sd $p rc=$rc $(echo "$out" | grep -c '^VIOLATION') viol; $(echo "$out" | grep 'violation signature' | cut -c1-160 | tr '\n' '|') $(echo "$out" | grep 'HARNESS' | cut -c1-120 | tr '\n' '|')"
